@@ -17,13 +17,15 @@ import lib_wrap as W
 PROPERTY = "C02"
 
 # CODE VARIANT FLAGS  (1 = rich 9.10.0 as released, 0 = repaired; see Model/Wrap.lean `WVariant`)
-try:  # the six flags of the Text model belong to property C05 (pending_fixes/C05-*.diff); follow them
+try:  # the six flags of the Text model and the rstrip_end flag belong to property C05 / C08; follow them
     from props.c05 import FLAGS as TEXT_FLAGS
+    from props.c05 import RSTRIP_END_CHARS
 except Exception:  # pragma: no cover
-    TEXT_FLAGS = "111111"
+    TEXT_FLAGS = "000000"
+    RSTRIP_END_CHARS = 1  # Text.rstrip_end compares the character count with the cell width (pending_fixes/C08-rstrip-end-counts-cells.diff)
 JUSTIFY_NEG = 0  # Lines.justify center/right: pad_left(negative) when the line stays wider than the width (overflow "ignore"); repaired by /repo commit 90b2e96
-FLAGS = TEXT_FLAGS + str(JUSTIFY_NEG)
-# development aid only (validate pending_fixes against a patched checkout): VERIF_C02_FLAGS=0000000 VERIF_REPO=<worktree>
+FLAGS = TEXT_FLAGS + str(JUSTIFY_NEG) + str(RSTRIP_END_CHARS)
+# development aid only (validate pending_fixes against a patched checkout): VERIF_C02_FLAGS=00000000 VERIF_REPO=<worktree>
 FLAGS = os.environ.get("VERIF_C02_FLAGS", FLAGS)
 
 ALPHA = ["a", "b", " ", "あ", "̀", "\t", "\n"]
